@@ -23,7 +23,7 @@ func (c09) regularCases(tier string) int {
 	}
 	return len(families) + 5000
 }
-func (p c09) NumCases(tier string) int { return p.regularCases(tier) + tinyCases(tier) }
+func (p c09) NumCases(tier string) int               { return p.regularCases(tier) + tinyCases(tier) }
 func (c09) Extra(tier string) map[string]interface{} { return tinyExtra(tier) }
 func (c09) Rule() string {
 	return "case = one grammar (curated families, then random grammars incl. nullable/recursive/cyclic/duplicate-rule shapes) built in-process by the real ParseAndBuild; its LR0Closure (item sets, GoTo, Index) is compared with a reference canonical LR(0) collection computed from yaccgo's own rule list; non-trivial = grammar accepted by yaccgo with >= 4 states; distinct by (rules, item sets) hash"
